@@ -27,6 +27,8 @@ def run(ck, fb):
     r03f(ck, fb)
     r03g(ck, fb)
     r03j(ck, fb)
+    r03k(ck, fb)
+    r03l(ck, fb)
     ck.borrow('rules.c02', {'R02a': 'R03h'}, 'the index-area rewind of strip_log_to sizes what write() stored')
 
 
@@ -388,3 +390,41 @@ def r03j(ck, fb):
     ck.floor('R03j', 'shrink bounds in strip_log_to_index', n, 1)
     ck.require(ok, 'R03j', 'strip_log_to_index:bound-is-kept-count', b.where(),
                'the list of log files is shrunk with a bound that is not len() - pop_count: the wrong files are kept')
+
+
+def r03k(ck, fb, R='R03k'):
+    ck.rule(R, 'a new log range starts on an empty file: ranges that a truncation across a file boundary drops from the list keep their files on disk '
+               '(known finding R03c) and switch_new_log uses the id of such a range again; unless the dropped file is removed - where the range is '
+               'dropped, or in switch_new_log before the actor opens it - the new range loads the removed entries: the next append is refused '
+               '("log write index not equal") and the removed suffix is readable again, without any restart')
+    sw = ck.body(LM + 'switch_new_log', R)
+    if not sw:
+        return
+    cr = sw.calls(re.escape(LM + 'create_log_actor') + '$')
+    if not ck.require(len(cr) >= 1, R, 'anchor:create_log_actor', sw.where(), 'switch_new_log no longer creates the actor of the new range'):
+        return
+    rm_rx = r'std::fs::remove_file|tokio::fs::remove_file|File::set_len$|OpenOptions::truncate$'
+    path = Taint(sw, call_src=lambda t: bool(re.search(r'get_log_path$', (t.get('f') or {}).get('d', ''))))
+    pre = [s0 for s0 in sw.calls(rm_rx) if any(path.op_tainted(a) for a in s0.args) and all(cfg.dominates_blocks(sw, [s0.bb], c.bb) for c in cr)]
+    at_drop = []
+    st = fb.bodies.get(LM + 'strip_log_to_index')
+    if st is not None:
+        for x in util.region(fb, st, 2):
+            at_drop += x.calls(rm_rx)
+    ck.require(bool(pre) or bool(at_drop), R, 'switch_new_log:new-range-starts-empty', cr[0].where(),
+               'the file of a new range is opened as it is: two-file log, delete_logs_from(259456) (in the first file), refill until the roll-over: '
+               'the range with the reused id loads the old file - the append is refused and 2689 removed term-1 entries are readable again',
+               'left-over file removed before the actor opens it' if pre else 'dropped files removed where the range is dropped')
+
+
+def r03l(ck, fb, R='R03l'):
+    ck.rule(R, 'after a truncation the reported last term is the term of the kept last entry: LogInnerManager::strip_log_to rewinds cursor, count and '
+               'index; last_term (answered by get_last_index_info and handed to the next file as its pre_term) must be assigned again on the '
+               'success path, otherwise it keeps the term of a removed entry - and differs from what the same file reports after a reopen')
+    b = ck.main(LIM + 'strip_log_to', R)
+    if not b:
+        return
+    w = [(bb, stt) for x in util.region(fb, b, 1) for (o, f, bb, stt) in x.field_writes() if f == 'last_term' and o.endswith('LogInnerManager')]
+    ck.require(len(w) >= 1, R, 'strip_log_to:last_term-recomputed', b.where(),
+               'strip_log_to never assigns last_term: entries 1..=3 in term 1 and 4..=6 in term 2, delete_logs_from(4): get_last_log_index = (3, term 2); '
+               'after a restart the same store answers (3, term 1)', 'assigned after the truncation')
